@@ -89,7 +89,7 @@ func init() {
 		}
 		ds := []c17Dep{}
 		for i := range init {
-			ds = append(ds, c17Dep{c3Dst, 1, uint64(i)})
+			ds = append(ds, c17Dep{c3Dst, 1, uint64(i), 0})
 		}
 		em, err := retry.FilterDeposits(ps, c17ByDomain(ds), c3Resource(1), c3Dst)
 		if err != nil {
@@ -138,7 +138,7 @@ func c17StoreCall(spec string, ps *store.PropStore, exe *btcExecutor.Executor) f
 		}
 	case 'R':
 		return func() string {
-			ds := []c17Dep{{c3Dst, 1, n}}
+			ds := []c17Dep{{c3Dst, 1, n, 0}}
 			em, _ := retry.FilterDeposits(ps, c17ByDomain(ds), c3Resource(1), c3Dst)
 			return "r" + itoa(len(em))
 		}
